@@ -1,7 +1,7 @@
 (* Property C15 - only statements, each closed by [exact]. *)
 From Coq Require Import NArith List Bool.
 Import ListNotations.
-Require Import UV.C15.Model UV.C15.Doc UV.C15.GraphF UV.C15.BackTrace UV.C15.Proofs.
+Require Import UV.C15.Model UV.C15.Doc UV.C15.GraphF UV.C15.BackTrace UV.C15.GraphText UV.C15.Proofs.
 Local Open Scope N_scope.
 
 (* Function names and string arguments: whatever bytes a name consists of, the text that
@@ -152,6 +152,29 @@ Theorem C15_graph_sums_any_sample : forall sample rootname tids s q, wf_stream s
 Proof. exact graph_sums_gen. Qed.
 Print Assumptions C15_graph_sums_any_sample.
 
+(* a task that is switched out when the data ends: its linux:schedule call is ended under that name
+   (C15_chrome_structure / C15_chrome_sched_stream_wf state it for every stream); the code as found (before bc8d6cc)
+   named the closing event after the event number: *)
+Theorem C15_chrome_close_sched_legacy_refuted :
+  wf_stream wit_stuck = true
+  /\ ok_chrome [(100, 100)] (chrome_stream wit_stuck) (chrome_events [(100, 100)] (chrome_stream wit_stuck)) = true
+  /\ map c_name (chrome_events [(100, 100)] (chrome_stream wit_stuck)) = [wit_main; s_sched; s_sched; wit_main]
+  /\ map c_name (chrome_events_legacy [(100, 100)] wit_stuck) = [wit_main; s_sched; [60; 51; 48; 100; 52; 50; 62]; wit_main]
+  /\ ok_chrome [(100, 100)] (chrome_stream wit_stuck) (chrome_events_legacy [(100, 100)] wit_stuck) = false.
+Proof. exact chrome_close_sched_legacy_refuted. Qed.
+Print Assumptions C15_chrome_close_sched_legacy_refuted.
+
+(* the calls still open at the end of the data count up to the LAST RECORD OF THEIR OWN TASK (C15_graph_sums states
+   it for every stream); the code as found (before feda1db) took, for a task whose last record is a scheduler event,
+   the time of the last scheduler event of any task: *)
+Theorem C15_graph_last_time_legacy_refuted :
+  wf_stream wit_last = true
+  /\ time_path [wit_main; wit_f] (ref_calls [100; 101] wit_last) = 200
+  /\ time_at [wit_main; wit_f] (graph_build 1 [112] [100; 101] wit_last) = 200
+  /\ time_at [wit_main; wit_f] (graph_build_legacy 1 [112] [100; 101] wit_last) = 1000.
+Proof. exact graph_last_time_legacy_refuted. Qed.
+Print Assumptions C15_graph_last_time_legacy_refuted.
+
 (* child_time of the node at a non-empty path q = sum over the calls whose CALLER's path is q of their duration
    (sample = 0), resp. of that duration rounded down to whole samples (adjust_fg_time), modulo 2^64. *)
 Theorem C15_graph_child_time : forall sample rootname tids s q,
@@ -300,3 +323,74 @@ Print Assumptions C15_outer_entry_spec.
 Theorem C15_json_args_text_valid : forall entry args, json_string_ok (quoted (args_text entry args)) = true.
 Proof. exact json_args_text_valid. Qed.
 Print Assumptions C15_json_args_text_valid.
+
+(* arguments of other formats in the chrome text: a pointer is printed as `&` + the ESCAPED name of the symbol it
+   points to (fix 767f11d; C15_json_args_text_valid covers it for every name), else as 0 / 0x...; the code as found
+   printed the name raw: *)
+Theorem C15_json_ptr_legacy_refuted :
+  json_string_ok (quoted ([40] ++ ptr_text_legacy [102; 34; 103] ++ [41])) = false
+  /\ json_string_ok (quoted (args_text true [APtr (Some [102; 34; 103]) 4198912])) = true.
+Proof. exact json_ptr_legacy_refuted. Qed.
+Print Assumptions C15_json_ptr_legacy_refuted.
+
+(* a struct passed by value is printed as its ESCAPED type name + {...} (fix for the struct name; also covered by
+   C15_json_args_text_valid for every name, as are the integer formats d/i/x/o and doubles); the code as found
+   printed the type name raw: *)
+Theorem C15_json_struct_legacy_refuted :
+  json_string_ok (quoted ([40] ++ struct_text_legacy [110; 34; 109] 8 ++ [41])) = false
+  /\ json_string_ok (quoted (args_text true [AStruct (Some [110; 34; 109]) 8])) = true.
+Proof. exact json_struct_legacy_refuted. Qed.
+Print Assumptions C15_json_struct_legacy_refuted.
+
+(* `dump --flame-graph` on recorded data (info has a record date) and no --sample-time: the sample time is the
+   smallest of 1us, 10us, ... 1s of which a million cover the elapsed time (1s at most) ... *)
+Theorem C15_flame_auto_sample : forall total,
+  let s := auto_sample total in
+  In s [1000; 10000; 100000; 1000000; 10000000; 100000000; 1000000000]
+  /\ (total <= s * 1000000 \/ s = 1000000000)
+  /\ (s = 1000 \/ (s / 10) * 1000000 < total).
+Proof. exact auto_sample_spec. Qed.
+Print Assumptions C15_flame_auto_sample.
+
+(* ... and the lines are the sampled counts at that sample time. *)
+Theorem C15_flame_auto_lines : forall total rootname tids s,
+  wf_stream s = true -> NoDup tids -> (forall r, In r s -> In (fst r) tids) ->
+  (forall p, time_path p (ref_calls tids s) < W64) ->
+  forall p c, In (p, c) (flame_rows (auto_sample total) (graph_build (auto_sample total) rootname tids s)) <->
+    (count_path p (ref_entries [] s) <> 0
+     /\ c = (time_path p (ref_calls tids s) - sampled_child_time (auto_sample total) p (ref_calls tids s)) / auto_sample total
+     /\ c <> 0).
+Proof. exact flame_auto_lines. Qed.
+Print Assumptions C15_flame_auto_lines.
+
+(* Tasks renamed while they run (perf COMM events: prctl(PR_SET_NAME), pthread_setname_np, exec) put process_name /
+   thread_name metadata events into the middle of traceEvents (dump_chrome_perf_event, escaped since 30262fc).  The
+   document with any such items among the events is valid JSON, whatever bytes the new names consist of ... *)
+Theorem C15_chrome_json_valid_items : forall comms items version date cmdline,
+  (forall tc, In tc comms -> fst tc < BIG) -> Forall item_bounded items ->
+  forallb plain2 version = true -> forallb plain2 date = true ->
+  json_ok (chrome_doc_items true comms items version date cmdline) = true.
+Proof. exact chrome_doc_items_valid. Qed.
+Print Assumptions C15_chrome_json_valid_items.
+
+Theorem C15_chrome_json_valid_stream_items : forall tasks comms s args renames version date cmdline,
+  (forall tp, In tp tasks -> fst tp < BIG /\ snd tp < BIG) -> (forall tc, In tc comms -> fst tc < BIG) ->
+  (forall r, In r s -> fst r < BIG /\ ev_time (snd r) < BIG) -> (forall r, In r renames -> snd (fst r) < BIG) ->
+  forallb plain2 version = true -> forallb plain2 date = true ->
+  json_ok (chrome_doc_items true comms (chrome_items tasks s args renames) version date cmdline) = true.
+Proof. exact chrome_stream_items_valid. Qed.
+Print Assumptions C15_chrome_json_valid_stream_items.
+
+(* ... and was not with the code as found: a task renamed to a-quote-b *)
+Theorem C15_chrome_comm_legacy_refuted :
+  json_ok (chrome_doc_texts true [(100, [112])] [comm_text_legacy 100 [97; 34; 98]] [118] [100] None) = false
+  /\ json_ok (chrome_doc_items true [(100, [112])] [DComm 100 100 [97; 34; 98]] [118] [100] None) = true.
+Proof. exact chrome_comm_legacy_refuted. Qed.
+Print Assumptions C15_chrome_comm_legacy_refuted.
+
+(* Scheduler events (perf data) are calls of the pseudo functions linux:schedule / linux:schedule (pre-empted) in every
+   exporter (since e743adf also the pre-empted ones in dump); dump --chrome names both linux:schedule.  The renamed
+   stream of a well-formed stream is well formed, so C15_chrome_structure and the JSON theorems apply to it. *)
+Theorem C15_chrome_sched_stream_wf : forall s, wf_stream s = true -> wf_stream (chrome_stream s) = true.
+Proof. exact chrome_stream_wf. Qed.
+Print Assumptions C15_chrome_sched_stream_wf.
